@@ -10,6 +10,7 @@ import (
 	"strings"
 	"time"
 
+	"github.com/tokenized/pkg/bitcoin"
 	"github.com/tokenized/pkg/wire"
 	"github.com/tokenized/spynode/internal/verif/core"
 )
@@ -505,6 +506,9 @@ func runHist(p histParams, hist []string, withDrain bool) *histRun {
 					fmt.Sprintf("after the history and a fair drain (answers, pings, clock incl. 61 s and 601 s time-outs) the node has not converged: %s; node tip %d, peer tip %d", why, w.Node.LastHeight(ctx), len(w.Best)-1))
 			}
 			w.chainInvariants("C02")
+			if ok {
+				w.processedAnnounced(p.Prop)
+			}
 			if p.BlockFetch {
 				w.oracleBlockFetch()
 			}
@@ -562,6 +566,9 @@ func (w *World) eventEnabled(ev string) bool {
 		return w.nthLastHeaders(k) != nil
 	case "uh", "uinv", "utx", "uxtx", "ublock", "uxblock", "uaddr", "ugarbage":
 		if p[0] == "uh" && len(p) > 1 && p[1] == "orphan" && len(w.Abandoned) < 4 {
+			return false
+		}
+		if p[0] == "uh" && len(p) > 1 && p[1] == "lowfork" && len(w.Best) < 41 {
 			return false
 		}
 		pc := w.U[untrustedAddrs[0]]
@@ -789,4 +796,33 @@ func (w *World) nthLastHeaders(k int) []byte {
 		}
 	}
 	return nil
+}
+
+// processedAnnounced: the node follows the chain by *processing* blocks - every block of the
+// peer's best chain from the start block up that the node holds was announced to the handlers
+// (HandleHeaders) at some point, by this node instance or one before a clean restart.
+func (w *World) processedAnnounced(prop string) {
+	if len(w.crashes) > 0 {
+		return
+	}
+	seen := map[bitcoin.Hash32]bool{}
+	for _, e := range w.H[0].events {
+		if e.Kind == "headers" {
+			seen[e.Hash] = true
+		}
+	}
+	for h := w.startHeightOnBest(); h < len(w.Best); h++ {
+		b := w.Tree.blocks[w.Best[h]]
+		if b == nil || !w.onNodeChain(b) {
+			continue
+		}
+		if !seen[b.hash] {
+			cls := "a block of the chain the node holds was never processed (no HandleHeaders for it)"
+			if len(w.restarts) > 0 {
+				cls += " after a reconnect / restart"
+			}
+			w.fail(prop, "blocks-processed", cls, fmt.Sprintf("block %s at height %d (start height %d) is on the node's chain but was never announced to the handlers", b.name, h, w.startHeightOnBest()))
+			return
+		}
+	}
 }
